@@ -13,7 +13,7 @@ from vf import apimon, corpus
 ID = 'C19'
 LEVEL = 'exploration'
 DECIDING = ['c19:project_queries', 'c19:script_search_compared']
-RULE = ('tree cases: a generated project (<= 28 Python files, nested packages to depth 3, .py and '
+RULE = ('tree cases: a generated project (<= 28 Python files, nested packages to depth 3, ASCII and PEP 3131 non-ASCII identifiers and file names, .py and '
         '.pyi, directories named venv/.venv/.tox/.mypy_cache/__pycache__, .gitignore files at '
         'several levels with plain directory entries in the forms d, /d, d/, a/b) whose every '
         'definition is recorded in a manifest (file, name, kind, line, top-level?, in an ignored '
@@ -28,7 +28,8 @@ ASSUMPTIONS = ['ignore rule transcribed from the statement: listed directory nam
 SIZES = {'quick': (700, 150), 'thorough': (9000, 1500)}
 TIMEOUT = {'quick': 1500, 'thorough': 4 * 3600}
 IGN = ['venv', '.venv', '.tox', '.mypy_cache', '__pycache__']
-NAMES = ['alpha', 'beta', 'gamma_x', 'Delta', 'eps_fn', 'alpha_two', 'Zeta9']
+NAMES = ['alpha', 'beta', 'gamma_x', 'Delta', 'eps_fn', 'alpha_two', 'Zeta9',
+         'caf\u00e9', '\u03a9mega', '\u00fcber_x']   # PEP 3131 identifiers (NFKC-stable spellings)
 
 
 def plan(tier, seed):
@@ -78,7 +79,7 @@ def build(rnd, root, file_entries=False):
                 else:
                     lines.append('%s = %d' % (nm, j))
                     manifest.append((p, nm, 'statement', len(lines), True, ignored))
-            with open(p, 'w') as f:
+            with open(p, 'w', encoding='utf-8') as f:
                 f.write('\n'.join(lines) + '\n')
             if not fn.startswith('__init__'):
                 modules.append((p, fn.rsplit('.', 1)[0], ignored))
